@@ -56,7 +56,7 @@ def gen(rng, tier, widen=False):
     else:
         n = rng.choice([4, 5, 6, 7, 8, 9, 10])
     shape = rng.choice(['ring', 'ring', 'grid', 'random', 'random', 'tree+'])
-    mesh = meshes.rand_mesh(rng, n, shape=shape, max_extra=(3 if n <= 7 else 2))
+    mesh = meshes.rand_mesh(rng, n, shape=shape, max_extra=(rng.choice([2, 3, 5]) if n <= 6 else 3 if n <= 7 else 2))
     single_pair = rng.random() < 0.5
     k = 2 if (single_pair and rng.random() < 0.6) else rng.randint(2, 6)
     reqs = []
@@ -198,6 +198,8 @@ def run(case, drv):
             res.fail(f'compute_path_dsjctn raised {raised}: {str(e)[:150]} (groups {sync})')
         res.stats['via_dsjctn'] += 1
     res.stats[f'outcome_{raised or "paths"}'] += 1
+    res.stats[f'outcome_{raised or "paths"}_{min(len(sync), 4)}vec'] += 1
+    res.stats['shared_endpoints'] += int(len({(r['src'], r['dst']) for r in reqs}) < len(reqs))
     # ------------------------------------------------------------------------------------------- monitor: soundness
     groups = []
     for grp in sync:
